@@ -173,12 +173,11 @@ def r3b(fx):
             yield o
 
 
-@rule('C06', 'R4', 3, 'masks are evaluated before format and version information are written (those areas still light)')
+@rule('C06', 'R4', 4, 'masks are evaluated before format and version information are written (those areas still light); the mask announced is the one applied')
 def r4(fx):
     from . import p02
     for o in p02.r7(fx):
-        if o.key in ('_encode stage order', 'no redefinition of version/error/mask/matrix after masking',
-                     'mask and matrix are the pair returned by find_and_apply_best_mask'):
+        if o.key.startswith('_encode v'):
             yield o
 
 
